@@ -683,6 +683,99 @@ fn main() {
                         ids(&rec0), ids(&rec1), kinds(&rec0), kinds(&rec1), rec0.outcome, rec1.outcome, g_bool(rec1.out_garbled || rec0.out_garbled)));
                 }
             }
+            "CAN" => {
+                // M2: ticks and raced completions placed inside frames (cancellation / deferral), end of stream inside frames
+                const PMS: u64 = 16_000;
+                for i in 0..(36 * scale) {
+                    let variant = i % 9;
+                    let mut p = base_params(&mut r, Intent::Login);
+                    p.ka = KaPolicy::Prompt(51 + 2 * r.below(100));
+                    let mut ads = base_ads(&mut r);
+                    if let Ok(d) = &mut ads.discover.0 { if d.is_empty() { d.push(rnd_target(&mut r, 0)); } }
+                    ads.discover.1 = 201 + 2 * r.below(30); ads.filter.1 = 101 + 2 * r.below(30); ads.select.1 = 51 + 2 * r.below(30);
+                    let secret = None;
+                    let client = rnd_sa(&mut r);
+                    let mut sc = build("CAN", &mut r, &p, ads.clone(), secret, client, format!("cancel variant {} #{}", variant, i));
+                    let mut pm_body = Vec::new();
+                    put_string(&mut pm_body, b"minecraft:brand");
+                    let pml = 130 + r.below(60) as usize; pm_body.extend(r.bytes(pml));
+                    let pm = frame_bytes(2, &pm_body);                       // 2-byte length prefix
+                    let small = frame_bytes(2, &{ let mut b = Vec::new(); put_string(&mut b, b"a:b"); b.extend(r.bytes(9)); b });
+                    let k_tick = 1 + r.below(3);                             // which tick
+                    let at = k_tick * PMS;
+                    let off_before = 1 + 2 * r.below(3);
+                    let off_after = 3 + 2 * r.below(30);
+                    let ack = sc.acts.iter().position(|a| matches!(a, Act::Frame { id: 3, .. })).unwrap();
+                    let cookie = sc.acts.iter().position(|a| matches!(a, Act::Frame { id: 4, .. })).unwrap();
+                    let split = |f: &Vec<u8>, k: usize, t1: u64, t2: u64| vec![Act::SleepUntil(t1), Act::Raw(f[..k].to_vec()), Act::SleepUntil(t2), Act::Raw(f[k..].to_vec())];
+                    match variant {
+                        0 => {
+                            // tick inside the 2-byte length prefix while waiting for the cookie response (keep-alive off)
+                            let body = cookie_resp_body("passage:session", &Some(r.bytes(150)));
+                            let f = frame_bytes(4, &body);
+                            sc.acts.splice(cookie..cookie + 1, split(&f, 1, at - off_before, at + off_after));
+                        }
+                        1 => {
+                            // tick inside the frame body while waiting for the cookie response: deferred, then skipped
+                            let body = cookie_resp_body("passage:session", &Some(r.bytes(150)));
+                            let f = frame_bytes(4, &body);
+                            let k = 2 + r.below(f.len() as u64 - 3) as usize;
+                            sc.acts.splice(cookie..cookie + 1, split(&f, k, at - off_before, at + off_after));
+                        }
+                        2 | 3 => {
+                            // configuration phase, waiting for the client information: tick inside prefix (2) / body (3)
+                            let k = if variant == 2 { 1 } else { 2 + r.below(pm.len() as u64 - 3) as usize };
+                            let mut ins = split(&pm, k, at - off_before, at + off_after);
+                            ins.push(Act::Sleep(1 + 2 * r.below(40)));
+                            sc.acts.splice(ack + 1..ack + 2, ins);
+                        }
+                        4 | 5 | 6 => {
+                            // raced adapter call completes inside a frame: prefix (4), body (5), small frame's body (6)
+                            let t0 = 1001u64;
+                            let h = match r.below(3) { 0 => t0 + ads.discover.1, 1 => t0 + ads.discover.1 + ads.filter.1, _ => t0 + ads.discover.1 + ads.filter.1 + ads.select.1 };
+                            let (f, k) = match variant { 4 => (pm.clone(), 1), 5 => (pm.clone(), 2 + r.below(pm.len() as u64 - 3) as usize), _ => (small.clone(), 1 + r.below(small.len() as u64 - 1) as usize) };
+                            // the client information goes first at t0, then the split frame around the completion
+                            let ci = sc.acts.iter().position(|a| matches!(a, Act::Frame { id: 0, body } if body.len() > 5 && sc.acts.iter().position(|x| std::ptr::eq(x, a)).unwrap() > ack)).unwrap();
+                            let ci_act = sc.acts[ci].clone();
+                            let mut ins = vec![Act::SleepUntil(t0), ci_act];
+                            ins.extend(split(&f, k, h - off_before, h + off_after));
+                            sc.acts.splice(ack + 1..ci + 1, ins);
+                        }
+                        7 => {
+                            // end of stream inside a frame, in different phases
+                            let which = r.below(3);
+                            let k = 1 + r.below(pm.len() as u64 - 1) as usize;
+                            if which == 0 {
+                                let body = cookie_resp_body("passage:session", &Some(r.bytes(150)));
+                                let f = frame_bytes(4, &body);
+                                let k = 1 + r.below(f.len() as u64 - 1) as usize;
+                                sc.acts.splice(cookie.., vec![Act::Raw(f[..k].to_vec()), Act::Sleep(1 + 2 * r.below(20_000)), Act::Eof]);
+                            } else if which == 1 {
+                                sc.acts.splice(ack + 1.., vec![Act::Sleep(1 + 2 * r.below(50)), Act::Raw(pm[..k].to_vec()), Act::Sleep(1 + 2 * r.below(40_000)), Act::Eof]);
+                            } else {
+                                let ci = sc.acts.len() - 4;
+                                let ci_act = sc.acts[ci].clone();
+                                sc.acts.splice(ack + 1.., vec![Act::SleepUntil(1001), ci_act, Act::Sleep(1 + 2 * r.below(100)), Act::Raw(pm[..k].to_vec()), Act::Sleep(1 + 2 * r.below(300)), Act::Eof]);
+                            }
+                        }
+                        _ => {
+                            // free form: several frames cut at random points and spread around ticks
+                            let mut ins = vec![];
+                            let mut t = PMS - 40 + 2 * r.below(10);
+                            for _ in 0..(1 + r.below(4)) {
+                                let f = if r.chance(1, 2) { pm.clone() } else { small.clone() };
+                                let k = 1 + r.below(f.len() as u64 - 1) as usize;
+                                let t2 = t + 1 + 2 * r.below(40);
+                                ins.extend(split(&f, k, t, t2));
+                                t = t2 + 1 + 2 * r.below(9000);
+                            }
+                            ins.push(Act::Sleep(1 + 2 * r.below(40)));
+                            sc.acts.splice(ack + 1..ack + 2, ins);
+                        }
+                    }
+                    run(sc, &mut r);
+                }
+            }
             "C07" => {
                 for i in 0..(30 * scale) {
                     let intent = *r.pick(&[Intent::Login, Intent::Transfer]);
